@@ -424,6 +424,8 @@ struct Analysis {
     distinct_images: u64,
     nontrivial: u64,
     hook_images_checked: u64,
+    /// power-loss images of the *complete* operation list (persist returned Ok) that do not restore the new graph
+    post_ack_not_new: u64,
     /// (signature, message, witness)
     violations: Vec<(String, String, J)>,
     outcome_count: BTreeMap<String, u64>,
@@ -580,6 +582,7 @@ fn analyse(h: &Hist, tier: Tier, use_strace: bool, keep_trace: &mut Option<Strin
     let mut images: BTreeMap<Image, (String, String)> = BTreeMap::new();
     let mut states = 0u64;
     let mut crash_images: BTreeSet<Image> = BTreeSet::new();
+    let mut post_ack: BTreeSet<Image> = BTreeSet::new();
     let all_lengths = tier == Tier::Thorough;
     for i in 0..=ops.len() {
         if i > 0 {
@@ -592,6 +595,9 @@ fn analyse(h: &Hist, tier: Tier, use_strace: bool, keep_trace: &mut Option<Strin
         images.entry(ci).or_insert_with(|| ("process crash".into(), prefix.clone()));
         for (img, desc) in fs.power_loss_images(all_lengths) {
             states += 1;
+            if i == ops.len() {
+                post_ack.insert(img.clone());
+            }
             images.entry(img).or_insert_with(|| ("power loss".into(), format!("{prefix}; {desc}")));
         }
     }
@@ -603,7 +609,7 @@ fn analyse(h: &Hist, tier: Tier, use_strace: bool, keep_trace: &mut Option<Strin
             return Err(format!("directory image at hook {label} ({:?}) is not among the {} process-crash images derived from {source}", img.iter().map(|(k, v)| (k, v.len())).collect::<Vec<_>>(), crash_images.len()));
         }
     }
-    let mut an = Analysis { ops: ops.clone(), source, states, distinct_images: images.len() as u64, nontrivial: 0, hook_images_checked: hook_checked, violations: vec![], outcome_count: BTreeMap::new() };
+    let mut an = Analysis { ops: ops.clone(), source, states, distinct_images: images.len() as u64, nontrivial: 0, hook_images_checked: hook_checked, post_ack_not_new: 0, violations: vec![], outcome_count: BTreeMap::new() };
     let prev_g = &h.cumulative[k - 1];
     let new_g = &h.cumulative[k];
     let empty = Plain { nodes: vec![], edges: vec![] };
@@ -637,6 +643,9 @@ fn analyse(h: &Hist, tier: Tier, use_strace: bool, keep_trace: &mut Option<Strin
             an.violations.push((format!("unclassified:{}:restored_graph_is_neither_previous_nor_new", kind.replace(' ', "_")), format!("{kind} state restores neither the previous nor the new graph: {desc}"), witness()));
         }
         *an.outcome_count.entry(format!("{kind}:{outcome}")).or_default() += 1;
+        if post_ack.contains(img) && *img != fs.crash_image() && (outcome == "previous" || outcome == "nothing_in_marker_window") {
+            an.post_ack_not_new += 1;
+        }
     }
     // clean restart after the complete persist
     {
@@ -730,6 +739,7 @@ fn main() {
         let mut total_images = 0u64;
         let mut nontrivial = 0u64;
         let mut hook_checked = 0u64;
+        let mut post_ack = 0u64;
         let mut outcomes: BTreeMap<String, u64> = BTreeMap::new();
         let mut trace_excerpt = None;
         let mut op_lists: Vec<J> = vec![];
@@ -745,6 +755,7 @@ fn main() {
             total_images += an.distinct_images + 1;
             nontrivial += an.nontrivial;
             hook_checked += an.hook_images_checked;
+            post_ack += an.post_ack_not_new;
             for (k, v) in &an.outcome_count {
                 *outcomes.entry(k.clone()).or_default() += v;
             }
@@ -763,6 +774,8 @@ fn main() {
         ctx.cov("strace_available", use_strace);
         ctx.cov("hook_images_cross_checked", hook_checked);
         ctx.cov("outcomes", json!(outcomes));
+        ctx.cov("power_loss_after_acknowledgement_restoring_an_older_graph", post_ack);
+        ctx.note("persist_snapshot never fsyncs the snapshot directory: a power loss after it has returned Ok can still restore the previous graph (count under power_loss_after_acknowledgement_restoring_an_older_graph). The property speaks of crashes *while* an import is being persisted, so these states are judged by the same k-1-or-k oracle and are not violations by themselves.");
         ctx.cov("operation_lists", json!(op_lists));
         if let Some(t) = trace_excerpt {
             ctx.cov("trace_excerpt", t);
